@@ -59,6 +59,11 @@ pub proof fn axiom_string_ext(a: String, b: String)
     ensures a == b
 { }
 
+// R-panic: documented panics / consistency guards (diverge; no obligation at the call site)
+#[verifier::external_body]
+pub fn gecs_panic(msg: &str) -> !
+{ panic!("{}", msg) }
+
 // R-emit: opaque token values (the CONTENT of emitted token streams is outside the claim)
 #[verifier::external_body]
 pub fn gv_tokens() -> TokenStream { unimplemented!() }
